@@ -15,6 +15,8 @@ mod shared;
 mod common;
 mod fuzz;
 mod lim;
+mod loaders;
+mod statz;
 mod strt;
 mod dur;
 mod c01;
@@ -77,6 +79,7 @@ fn dispatch(driver: &str, a: &Args) {
         "c15" => dur::run(&a),
         "c16" => strt::run(&a),
         "probe" => strt::probe(&a),
+        "probeiter" => strt::probeiter(&a),
         "probetzif" => strt::probetzif(&a),
         "probetz" => strt::probetz(&a),
         "c17" => fuzz::run(&a),
